@@ -239,7 +239,7 @@ pub fn cfg_for(tier: Tier) -> PicCfg {
 pub fn run(ctx: &Ctx) -> i32 {
     let cfg = cfg_for(ctx.tier);
     let mut reports = vec![super::regression_suite(ctx)];
-    let cases = ctx.tier.pick(60_000u64, 500_000u64);
+    let cases = ctx.tier.pick(60_000u64, 1_200_000u64);
     reports.push(tape_suite(ctx, "stream_vs_own_reader", cases, 8192, &move |g| stream_case(g, &cfg)));
     reports.push(exhaustive_suite(ctx, "long_streams", ctx.tier.pick(6u64, 24u64), &long_stream_item));
     finish(
